@@ -16,7 +16,7 @@ try:
     if src.count(old) != 1:
         print("MUT: anchor occurs", src.count(old), "times"); sys.exit(3)
     open(full, "w").write(src.replace(old, new))
-    env = dict(os.environ, GOFLAGS="-mod=mod", GOPROXY="off", GOSUMDB="off", GOTOOLCHAIN="local", VERIF_REPO=scratch)
+    env = dict(os.environ, GOFLAGS="-mod=mod", GOPROXY="off", GOSUMDB="off", GOTOOLCHAIN="local", VERIF_REPO=scratch, VERIF_EVIDENCE_DIR=scratch + "/.evidence")
     b = subprocess.run("go build ./...", shell=True, capture_output=True, text=True, cwd=scratch, env=env)
     if b.returncode != 0:
         print("MUT: does not compile\n", b.stderr[-1500:]); sys.exit(3)
